@@ -67,7 +67,7 @@ func verifyState(prop string, tr *iavl.MutableTree, img *dbm.MemDB, skip bool, m
 		return v
 	}
 	if !skip && m.latest > 0 {
-		if err := auditFast(DumpDB(img), m.vers[m.latest], m.latest); err != nil {
+		if err := auditFast(DumpDB(img), m.vers, m.latest); err != nil {
 			return &Violation{Prop: prop, Obs: tag + "audit.fast", Msg: err.Error()}
 		}
 	}
@@ -184,6 +184,7 @@ func crashOp(w *World, op Op) (v *Violation, st crashStats) {
 	wops := append([]Op{}, w.WOps...)
 	wv := w.WorkingVersion()
 	base := DumpDB(w.DB)
+	preCfg, preCur := w.Cfg, w.Cur
 	w.Trace.NoJournal = false
 	w.Trace.ResetJournal()
 	if x := w.Apply(op); x != nil {
@@ -200,20 +201,29 @@ func crashOp(w *World, op Op) (v *Violation, st crashStats) {
 		st.labels["split_op_"+op.Kind] = true
 	}
 	f7op := op.Kind == "save" || op.Kind == "prune" || op.Kind == "lvfo"
+	var natural []map[string][]byte
+	if f7op && Open("F7") && len(journal) >= 2 {
+		natural = naturalImages(base, preCfg, preCur, wops, op)
+	}
 	for cut := 0; cut <= len(journal); cut++ {
 		interior := cut > 0 && cut < len(journal)
-		for _, skip := range []bool{false, true} {
+		for variant, skip := range []bool{false, true, false} {
 			st.cuts++
 			img := ImageAt(base, journal, cut)
 			tag := fmt.Sprintf("cut%d/%d.", cut, len(journal))
-			x := checkCut(img, skip, pre, post, op, wops, wv, tag, opts)
+			var x *Violation
+			if variant == 2 {
+				x = checkCutOlder(img, pre, post, op, tag, opts)
+			} else {
+				x = checkCut(img, skip, pre, post, op, wops, wv, tag, opts)
+			}
 			if x == nil {
 				if interior {
 					st.interiorChecked++
 				}
 				continue
 			}
-			if interior && f7op && Open("F7") && f7Applies(pre, op) {
+			if interior && f7op && Open("F7") && f7Applies(pre, op) && !atNaturalBoundary(natural, ImageAt(base, journal, cut)) {
 				// known family: only the version being written / rolled back / deleted may be affected
 				if y := untouchedOK(ImageAt(base, journal, cut), pre, op, wv); y != nil {
 					y.Msg = tag + " " + y.Msg
@@ -227,6 +237,78 @@ func crashOp(w *World, op Op) (v *Violation, st crashStats) {
 		}
 	}
 	return nil, st
+}
+
+// naturalImages: F7 is about physical writes that the FLUSH THRESHOLD cuts out of one logical write. The same operation
+// is therefore executed once more on a copy of the store with the default threshold: the store contents at the
+// boundaries of THAT journal are the states the operation exposes by design (one for a commit or a deletion, two for
+// LoadVersionForOverwriting: rollback, then index rebuild). A cut of the real run whose image equals one of them is not
+// a threshold split, and a failure there is never attributed to F7.
+func naturalImages(base map[string][]byte, cfg Cfg, cur int64, wops []Op, op Op) (imgs []map[string][]byte) {
+	defer func() {
+		if r := recover(); r != nil {
+			imgs = nil
+		}
+	}()
+	db := MemDBFrom(base)
+	tdb := NewTraceDBOn(db)
+	opts := []iavl.Option{iavl.FlushThresholdOption(100000), iavl.SyncOption(cfg.Sync)}
+	if cfg.InitVer > 0 {
+		opts = append(opts, iavl.InitialVersionOption(cfg.InitVer))
+	}
+	tr := iavl.NewMutableTree(tdb, cfg.Cache, cfg.SkipFast, iavl.NewNopLogger(), opts...)
+	if _, err := tr.LoadVersion(cur); err != nil {
+		return nil
+	}
+	for _, o := range wops {
+		switch o.Kind {
+		case "set":
+			v := o.V
+			if v == nil {
+				v = []byte{}
+			}
+			if _, err := tr.Set(o.K, v); err != nil {
+				return nil
+			}
+		case "remove":
+			if _, _, err := tr.Remove(o.K); err != nil {
+				return nil
+			}
+		}
+	}
+	base2 := DumpDB(db)
+	tdb.ResetJournal()
+	var err error
+	switch op.Kind {
+	case "save":
+		_, _, err = tr.SaveVersion()
+	case "prune":
+		err = tr.DeleteVersionsTo(op.N)
+	case "lvfo":
+		err = tr.LoadVersionForOverwriting(op.N)
+	default:
+		return nil
+	}
+	if err != nil {
+		return nil
+	}
+	for i := 0; i <= len(tdb.Journal); i++ {
+		imgs = append(imgs, DumpDB(ImageAt(base2, tdb.Journal, i)))
+	}
+	return imgs
+}
+
+func atNaturalBoundary(natural []map[string][]byte, img *dbm.MemDB) bool {
+	if len(natural) == 0 {
+		return false
+	}
+	d := DumpDB(img)
+	for _, n := range natural {
+		if eqDump(d, n) {
+			return true
+		}
+	}
+	return false
 }
 
 // f7Applies narrows the F7 signature for DeleteVersionsTo: deleteVersion removes the root key of a version that wrote
@@ -338,6 +420,66 @@ func checkCut(img *dbm.MemDB, skip bool, pre, post modelSnap, op Op, wops []Op, 
 		return x
 	}
 	return nil
+}
+
+// checkCutOlder: the process that comes back after the crash opens the store at an OLDER version first (index enabled):
+// whatever recovery work that open performs (a pending index rebuild, ...) must leave every read path of every version
+// right, seen through that handle and through a later ordinary open.
+func checkCutOlder(img *dbm.MemDB, pre, post modelSnap, op Op, tag string, opts []iavl.Option) (v *Violation) {
+	defer func() {
+		if r := recover(); r != nil {
+			v = &Violation{Prop: "C05", Obs: "cut.older.panic", Msg: fmt.Sprintf("panic while recovering at an older version: %v", r)}
+		}
+	}()
+	viol := func(obs, f string, a ...any) *Violation {
+		return &Violation{Prop: "C05", Obs: "cut.older." + obs, Msg: fmt.Sprintf(f, a...)}
+	}
+	tr := iavl.NewMutableTree(img, 0, false, iavl.NewNopLogger(), opts...)
+	a := tr.AvailableVersions()
+	av := fmt.Sprint(a)
+	var state modelSnap
+	switch {
+	case av == post.rng():
+		state = post
+	case av == pre.rng():
+		state = pre
+	case op.Kind == "prune" && len(a) > 0 && int64(a[len(a)-1]) == pre.latest && int64(a[0]) >= pre.first && int64(a[0]) <= op.N+1:
+		state = modelSnap{vers: map[int64]*VerState{}, first: int64(a[0]), latest: pre.latest}
+		for ver := state.first; ver <= state.latest; ver++ {
+			state.vers[ver] = pre.vers[ver]
+		}
+	default:
+		return nil // (a mixture is reported by the ordinary recovery check)
+	}
+	if state.latest <= state.first {
+		return nil
+	}
+	target := state.first + (state.latest-state.first)/2 // an older retained version
+	if _, err := tr.LoadVersion(target); err != nil {
+		return viol("load", "LoadVersion(%d) as the first call after the crash: %v (available %s)", target, err, av)
+	}
+	vs := state.vers[target]
+	for _, kv := range sortedKVs(vs.KV) {
+		g, err := tr.Get(kv.K)
+		if err != nil || g == nil || !bytes.Equal(g, kv.V) {
+			return viol("working.get", "tree loaded at version %d: Get(%q)=%q,%v want %q", target, kv.K, g, err, kv.V)
+		}
+	}
+	for k := range state.vers[state.latest].KV {
+		if _, ok := vs.KV[k]; !ok {
+			if g, err := tr.Get([]byte(k)); err != nil || g != nil {
+				return viol("working.get_absent", "tree loaded at version %d: Get(%q)=%q,%v but the key only exists in later versions", target, k, g, err)
+			}
+		}
+	}
+	if x := verifyState("C05", tr, img, false, state, tag+"older."); x != nil {
+		return x
+	}
+	fresh := iavl.NewMutableTree(img, 0, false, iavl.NewNopLogger(), opts...)
+	if lv, err := fresh.Load(); err != nil || lv != state.latest {
+		return viol("reload", "after a recovery at version %d: Load() = %d,%v want %d", target, lv, err, state.latest)
+	}
+	return verifyState("C05", fresh, img, false, state, tag+"older.fresh.")
 }
 
 func genCrashOp(t *rapid.T, w *World) Op {
